@@ -25,6 +25,9 @@ def pin_environment():
     for m in [k for k in sys.modules if k == "cfinterface" or k.startswith("cfinterface.")]:
         del sys.modules[m]
     import cfinterface  # noqa
+    empty = os.path.join(WORK, "cwd")
+    os.makedirs(empty, exist_ok=True)
+    os.chdir(empty)          # contents are never mistaken for existing file names
 
     got = os.path.dirname(os.path.dirname(os.path.abspath(cfinterface.__file__)))
     if os.path.realpath(got) != os.path.realpath(REPO):
